@@ -36,6 +36,9 @@ class ElementTriN3(ElementHcurl):
         """Covariant Piola transformation.
         Overridden to allow for higher order"""
         orient = self.orient(mapping, i, tind)
+        # shared points (dim x npts) or per-cell points (dim x ncells x npts)
+        subscripts = ('ijkl,il,k->jkl' if len(X.shape) == 2
+                      else 'ijkl,ikl,k->jkl')
         target_swap = i
         if i < 9:
             edge_idx = i // 3
@@ -67,7 +70,7 @@ class ElementTriN3(ElementHcurl):
             invDF = mapping.invDF(X, tind)
             detDF = mapping.detDF(X, tind)
 
-            val_final = np.einsum('ijkl,il,k->jkl', invDF, phi, orient)
+            val_final = np.einsum(subscripts, invDF, phi, orient)
             curl_final = dphi / detDF * orient[:, None]
 
         else:
@@ -77,10 +80,10 @@ class ElementTriN3(ElementHcurl):
             invDF = mapping.invDF(X, tind)
             detDF = mapping.detDF(X, tind)
 
-            val_A = np.einsum('ijkl,il,k->jkl', invDF, phi_A, orient)
+            val_A = np.einsum(subscripts, invDF, phi_A, orient)
             curl_A = dphi_A / detDF * orient[:, None]
 
-            val_B = np.einsum('ijkl,il,k->jkl', invDF, phi_B, orient)
+            val_B = np.einsum(subscripts, invDF, phi_B, orient)
             curl_B = dphi_B / detDF * orient[:, None]
 
             if swap_condition == -1:
